@@ -646,7 +646,13 @@ impl Objective {
 
 impl fmt::Display for Objective {
     fn fmt(&self, f: &mut fmt::Formatter<'_>) -> fmt::Result {
-        write!(f, "{} {}", self.objective_type, self.rhs)
+        match self.objective_type {
+            // `solve` takes no expression in the grammar
+            OptimizationType::Satisfy => write!(f, "{}", self.objective_type),
+            OptimizationType::Min | OptimizationType::Max => {
+                write!(f, "{} {}", self.objective_type, self.rhs)
+            }
+        }
     }
 }
 
